@@ -100,6 +100,23 @@ theorem le_sum_of_mem {α : Type} (l : List α) (h : α → Nat) (x : α) (hx : 
     · omega
     · have := ih hxt; omega
 
+/-- removing the first element found by `find?` removes exactly its contribution to a sum -/
+theorem sum_map_eraseP_find {α : Type} (l : List α) (p : α → Bool) (h : α → Nat) (x : α)
+    (hf : l.find? p = some x) : ((l.eraseP p).map h).sum + h x = (l.map h).sum := by
+  induction l with
+  | nil => simp at hf
+  | cons a t ih =>
+    by_cases ha : p a = true
+    · simp only [List.find?_cons, ha] at hf
+      cases hf
+      simp only [List.eraseP_cons, ha, cond_true, List.map_cons, List.sum_cons]
+      omega
+    · simp only [Bool.not_eq_true] at ha
+      simp only [List.find?_cons, ha] at hf
+      have := ih hf
+      simp only [List.eraseP_cons, ha, cond_false, List.map_cons, List.sum_cons]
+      omega
+
 theorem find_id_mem {α : Type} {l : List α} {id : α → Nat} {f : Nat} {x : α}
     (h : l.find? (fun y => id y == f) = some x) : x ∈ l ∧ id x = f := by
   have h1 := List.mem_of_find?_eq_some h
